@@ -390,11 +390,11 @@ def specs(tier):
         return [CaptureSpec(6),
                 ProgSpec('prog-len2', 2, 99, std),
                 ProgSpec('prog-frames', 2, 4, [f for f in progs.FRAMES if f != (0, False)]),
-                ProgSpec('prog-len3', 3, 4, std, min_items=3),
-                ProgSpec('prog-len4', 4, 3, std, min_items=4),
-                ShiftSpec('prog-shift', 3, 6, std),
+                ProgSpec('prog-len3', 3, 3, std, min_items=3),
+                ProgSpec('prog-len4', 4, 2, std, min_items=4),
+                ShiftSpec('prog-shift', 3, 5, std),
                 ModuleBoundSpec('prog-module', 2, 99, std),
-                ModuleBoundSpec('prog-module-len3', 3, 3, std, min_items=3),
+                ModuleBoundSpec('prog-module-len3', 3, 2, std, min_items=3),
                 GoogleBlockSpec('prog-google', 2, 99, std)]
     return [CaptureSpec(5),
             ProgSpec('prog-len2', 2, 99, std),
